@@ -445,6 +445,7 @@ type Job struct {
 	Harness  string                 `json:"harness"`
 	Params   map[string]interface{} `json:"params"`
 	MapOrder string                 `json:"map_order,omitempty"`
+	Values   map[string]uint64      `json:"-"` // nondet names fixed to concrete values (selftest)
 	Weight   int                    `json:"-"` // scheduling hint: heavier jobs start first
 	Race     bool                   `json:"race,omitempty"` // native replay under the race detector
 	Open     []string               `json:"-"`
@@ -497,6 +498,7 @@ func (w *Worker) RunJob(job Job) (res *JobResult) {
 	in := w.In
 	in.ResetInstance()
 	in.Params = job.Params
+	in.Concrete = job.Values
 	in.MapOrder = "asc"
 	if job.MapOrder != "" {
 		in.MapOrder = job.MapOrder
